@@ -42,7 +42,7 @@ def run(ctx):
     ctx.extra_cov['distinct_cases'] = len(paths) + runs + nf
 
 
-def conc_run(ctx, srv, i, clients, steps):
+def conc_run(ctx, srv, i, clients, steps, evalheavy=False):
     tr = ctx.new_trace('conc%d' % i)
     accounts = [b'acct:%d' % j for j in range(4)]
     setup = workloads.Session(srv, tr)
@@ -51,7 +51,7 @@ def conc_run(ctx, srv, i, clients, steps):
     setup.cmd(c, [b'MSET'] + [x for a in accounts for x in (a, b'1000')])
     setup.close(c)
     run = ConcRun(srv, tr)
-    scripts = {ci + 10: workloads.txn_script(ctx.rnd, ci, steps, accounts, b'shared') for ci in range(clients)}
+    scripts = {ci + 10: workloads.txn_script(ctx.rnd, ci, steps, accounts, b'shared', evalheavy) for ci in range(clients)}
     run.run(scripts)
     fin = workloads.Session(srv, tr)
     fin.next_id = 100
